@@ -55,6 +55,7 @@ StepAct(J, a, idx) ==
      [] a.a = "setdef" -> [J EXCEPT !.st = SetDefault(@, a.kind)]
      [] a.a = "end"    -> [J EXCEPT !.st = ModuleEnd(@)]
      [] a.a = "retype" -> [J EXCEPT !.st = ReType(@)]
+     [] a.a = "clear"  -> [J EXCEPT !.st = Clear(@)]
      [] a.a = "reg"    -> IF a.ty \notin Types \/ a.pat = <<>> THEN J
                           ELSE [st |-> IF a.res = "ok"       \* adopt what was observed
                                        THEN [J.st EXCEPT !.steps[a.ty] = Append(@, Entry(a.pat, J.st.current, a.func, J.st.tver))]
